@@ -146,6 +146,14 @@ class Gen:
             # IEEE-754 binary64: every operator is total (division by zero gives an infinity or a NaN); % is finding F7 and not generated
             if leaf:
                 return self.pick([self.prop("double", d), self.prop("double", d), self.lit("double")])
+            if self.chance(0.06):
+                # Math.max / Math.min of two CONSTANTS (a NaN or an infinity obtained by folding among them) next to a run-time operand: whether it is computed at
+                # translation time or at run time, it is the same number
+                F = lambda t: ("float", t)
+                csts = [("binary", "/", F("0.0"), F("0.0")), F("1.0"), F("2.5"), ("binary", "*", F("1e308"), F("10.0")), ("unary", "-", F("0.0")), F("0.0"), ("unary", "-", F("2.5"))]
+                first = csts[0] if self.chance(0.4) else self.pick(csts)
+                call = ("call", ("member", ("ident", "Math"), self.pick(["max", "min"])), [first, self.pick(csts)])
+                return ("binary", self.pick(["+", "*"]), call, self.prop("double", d + 1))
             if r < 0.55:
                 return ("binary", self.pick(["+", "-", "*", "/", "/"]), self.expr("double", d + 1), self.expr("double", d + 1))
             if r < 0.65:
@@ -160,6 +168,13 @@ class Gen:
                 return self.obj(d)
             return ("ternary", self.expr("bool", d + 1), self.obj(d + 1), self.obj(d + 1))
         raise KeyError(ty)
+
+    def const_minmax(self, d):
+        F = lambda t: ("float", t)
+        csts = [("binary", "/", F("0.0"), F("0.0")), F("1.0"), F("2.5"), ("binary", "*", F("1e308"), F("10.0")), ("unary", "-", F("0.0")), F("0.0"), ("unary", "-", F("2.5"))]
+        first = csts[0] if self.chance(0.4) else self.pick(csts)
+        call = ("call", ("member", ("ident", "Math"), self.pick(["max", "min"])), [first, self.pick(csts)])
+        return ("binary", self.pick(["+", "*"]), call, self.prop("double", d + 1))
 
     def typed(self, ty, d):
         """an expression whose type is concrete (not a bare literal): keeps literal-only subtrees out of places where C++ would pick another type"""
@@ -475,6 +490,8 @@ class Gen:
             tail = {"double": ("ternary", test, ("unary", "-", ("float", "1.0")), ("ident", "r")), "bool": test,
                     "int": ("ternary", test, ("int", 1), ("int", 2)), "string": ("ternary", test, ("str", "n/a"), ("str", "ok"))}[t]
             return ("binding_block", [("decl", "let", [("r", None, ("binary", self.pick(["/", "-", "*"]), num, den))]), ("return", tail)]), t
+        if self.chance(0.04):
+            return ("binding_expr", self.const_minmax(0)), "double"
         if self.chance(0.05):
             # a variable that holds a constant first and is then re-assigned from a property: the returned value is the LATER one (straight-line code, one block)
             t = self.pick(["int", "string", "double", "bool"])
